@@ -115,6 +115,27 @@ pub fn ops() -> Vec<(&'static str, Op)> {
         .with_item_and_weight(Tournament::binary(), 2).expect("weights"));
     sel!("dyn_weighted", DynWeighted::new(Best, 1).with_selector(Lexicase::new(4), 3).with_selector(Random, 2));
     {
+        // the same weighted combination built afresh on every call, in turn all at once and piece by
+        // piece with selections (from ANOTHER generator) in between: what it selects is a function of
+        // its configuration, the population and the generator - not of how and when it was assembled
+        let calls = std::sync::atomic::AtomicU64::new(0);
+        v.push(("dyn_weighted_assembled", Box::new(move |a, r| {
+            let pop = population(a);
+            let n = calls.fetch_add(1, std::sync::atomic::Ordering::Relaxed);
+            let s = if n % 2 == 0 {
+                DynWeighted::new(Best, 1).with_selector(Lexicase::new(4), 3).with_selector(Random, 2)
+            } else {
+                let mut scratch = StdRng::seed_from_u64(n);
+                let s = DynWeighted::new(Best, 1);
+                let _ = s.select(&pop, &mut scratch);
+                let s = s.with_selector(Lexicase::new(4), 3);
+                let _ = s.select(&pop, &mut scratch);
+                s.with_selector(Random, 2)
+            };
+            dbg(s.select(&pop, r).map(|i| pop.iter().position(|p| std::ptr::eq(p, i))).map_err(|e| e.to_string()))
+        })));
+    }
+    {
         let op = Select::new(Tournament::binary()).then(GenomeExtractor).then(Mutate::new(WithRate::new(0.25)));
         v.push(("select_then_extract_then_mutate", Box::new(move |a, r| { let pop = population(a); dbg(op.apply(&pop, r).map_err(|e| e.to_string())) })));
     }
